@@ -43,7 +43,9 @@ META = {
                     'IEEE rounding is not modelled (1e-9 relative comparison)'],
     'fingerprint': [('src/geophires_x/Economics.py', 'Economics.Calculate'),
                     ('src/geophires_x/Economics.py', 'calculate_cost_of_one_vertical_well'),
-                    ('src/geophires_x/WellBores.py', 'calculate_total_drilling_lengths_m')],
+                    ('src/geophires_x/WellBores.py', 'calculate_total_drilling_lengths_m'),
+                    ('src/geophires_x/Economics.py', 'calculate_cost_of_non_vertical_section'),
+                    ('src/geophires_x/SBTEconomics.py', 'SBTEconomics.Calculate')],
 }
 
 GENERATORS = (wellcost.generate,)
@@ -234,6 +236,10 @@ def gen_inputs(ctx):
     for _ in range(ctx.n(6, 60)):   # district heating: every way of obtaining the network cost
         cfgs.append(configs.synthetic(rnd, enduse=2, plant=7, resmodel=4, life=rnd.choice([5, 10, 20])))
     texts = [('synthetic', runner.params_to_text(c)) for c in cfgs]
+    # SBT economics (its own Calculate, not a copy of the roll-up) with a user-fixed gathering-system cost: a light closed-loop
+    # configuration (~25 s) kept in the quick tier; it is the regression case of a repaired defect (see known_findings.json)
+    for f in sorted((fw.VERIF / 'corpus' / 'C03').glob('*.txt')):
+        texts.append(('corpus:' + f.name, f.read_text()))
     texts += [('example:' + n, t) for n, t in configs.example_texts(slow=not ctx.quick)]
     return texts
 
